@@ -147,22 +147,52 @@ def _pair_roundtrip(tv: str, fv: str) -> bool:
     return r is not None and r[0] == fv and line[r[1]:] == NL
 
 
-def _int_bool_fields(n: int, b: bool) -> bool:
+class Num:
+    """stands for an int / float / bool field value: its str() is the symbolic text"""
+
+    def __init__(self, text):
+        self.text = text
+
+    def __str__(self):
+        return self.text
+
+
+def _numeric_field_verbatim(txt: str) -> bool:
+    """
+    pre: 1 <= len(txt) <= 5 - D
+    pre: all(c in "0123456789-+.einfaTrueFls" for c in txt)
+    post: _
+    """
+    line = line_protocol("m", None, {"n": Num(txt), "z": 1})
+    return line == "m n=" + txt + ",z=1" + NL
+
+
+def _bool_field(b: bool) -> bool:
     """
     post: _
     """
-    line = line_protocol("m", None, {"b": b, "n": n})
-    return line == "m b=" + ("True" if b else "False") + ",n=" + str(n) + NL
+    line = line_protocol("m", None, {"b": b})
+    return line == "m b=" + ("True" if b else "False") + NL
+
+
+def _timestamp_omitted_or_last(v: str) -> bool:
+    """
+    pre: len(v) <= 2 and NL not in v and CR not in v
+    post: _
+    """
+    with_ts = line_protocol("m", None, {"f": v}, 12)
+    without = line_protocol("m", None, {"f": v})
+    return with_ts == without[:-1] + " 12000000000" + NL
 
 
 def _single_line(name: str, v: str) -> bool:
     """
-    pre: len(name) <= 2 and len(v) <= 2
-    pre: NL not in name and NL not in v and CR not in name and CR not in v
+    pre: len(name) <= 1 and len(v) <= 1
+    pre: NL not in name and NL not in v
     post: _
     """
     line = line_protocol(name, {"t": v}, {"f": v})
-    return line.endswith(NL) and line.count(NL) == 1
+    return line.endswith(NL) and NL not in line[:-1]
 
 
 # -- reachability twins: must be REFUTED (otherwise the pre-conditions are vacuous) ----------------------
